@@ -250,6 +250,39 @@ fn ctx_deser_seeds(t: Tier) -> Vec<Seed> {
     v
 }
 
+/// compact models (a few contexts, a few trees: every count, index and tree-length field inside the mutated
+/// windows) of every order, plus the tier's regular models
+fn ctx_use_seeds(t: Tier) -> Vec<Seed> {
+    let mut v = Vec::new();
+    for o in 0..3u8 {
+        for (label, p) in [("ab", &b"ab"[..]), ("abc", b"abcabcabc")] {
+            // (every context tree spans all 256 symbols, ~0.8 KiB and ~1 ms each; order 1 and 2 share the layout: quick has the order-0 models and one order-1 model)
+            if t == Tier::Quick && (o == 2 || (o == 1 && label == "abc")) {
+                continue;
+            }
+            if let Ok(e) = ContextualHuffmanEncoder::new(p, order_of(o)) {
+                v.push(seed(&format!("ctx(order{o},{label})"), canon_ctx(&e.serialize()), 0));
+            }
+        }
+    }
+    if t == Tier::Thorough {
+        v.extend(ctx_deser_seeds(t));
+    }
+    v
+}
+
+/// every byte as a context (order 1), every pair of the training alphabets (order 2), unknown symbols
+fn ctx_probes() -> Vec<Vec<u8>> {
+    let ramp: Vec<u8> = (0..=255u8).collect();
+    let mut pairs = Vec::new();
+    for a in b"abc\x00\xff" {
+        for b in b"abc\x00\xff" {
+            pairs.extend_from_slice(&[*a, *b, b'a']);
+        }
+    }
+    vec![b"a".to_vec(), b"ab".to_vec(), b"abcabcabc".to_vec(), b"abababababababab".to_vec(), ramp, pairs]
+}
+
 fn ctx_deser_decode_seeds<const O: u8>(t: Tier) -> Vec<Seed> {
     let mut v = Vec::new();
     for (sel, label, p) in ctx_seed_models(t) {
@@ -528,7 +561,24 @@ pub fn all(tier: Tier) -> Vec<P> {
     // wrappers and the selector/model-prefixed parsers get it in the thorough tier only.
     let th = tier == Tier::Thorough;
     vec![
-        P { name: "HuffmanTree::deserialize", seeds: huff_tree_seeds, parse: |b, _| HuffmanTree::deserialize(b).is_ok(), len_arg: false, small: true },
+        P {
+            name: "HuffmanTree::deserialize",
+            seeds: huff_tree_seeds,
+            parse: |b, _| match HuffmanTree::deserialize(b) {
+                Ok(t) => {
+                    // (coverage audit) read everything the loaded tree offers: every code, the depth, its own re-serialisation
+                    let mut acc = t.max_code_length();
+                    for s in 0..=255u8 {
+                        acc += t.get_code(s).map(|c| c.len()).unwrap_or(0);
+                    }
+                    std::hint::black_box((acc, t.serialize().len()));
+                    true
+                }
+                Err(_) => false,
+            },
+            len_arg: false,
+            small: true,
+        },
         P {
             name: "HuffmanTree::deserialize + HuffmanDecoder::decode",
             seeds: huff_decode_seeds,
@@ -560,6 +610,26 @@ pub fn all(tier: Tier) -> Vec<P> {
         P { name: "ParallelHuffmanDecoder<X8>::decode[valid tree]", seeds: parallel_huff_seeds::<ParallelX8Variant>, parse: parallel_huff_parse::<ParallelX8Variant>, len_arg: true, small: false },
         // (needs >= 9 bytes before its first length field is complete: short strings only reach the "truncated" exits)
         P { name: "ContextualHuffmanEncoder::deserialize", seeds: ctx_deser_seeds, parse: |b, _| ContextualHuffmanEncoder::deserialize(b).is_ok(), len_arg: false, small: th },
+        // (coverage audit) a loaded model must be usable as an ENCODER too: `encode` / `estimate_compression_ratio` index
+        // `trees[context_map[ctx]]` for every context the probe walks through, not only those of one decoded stream
+        P {
+            name: "ContextualHuffmanEncoder::deserialize + encode/estimate over every context",
+            seeds: ctx_use_seeds,
+            parse: |b, _| match ContextualHuffmanEncoder::deserialize(b) {
+                Ok(enc) => {
+                    let mut acc = enc.tree_count() + enc.order() as usize;
+                    for probe in ctx_probes() {
+                        acc += enc.encode(&probe).map(|v| v.len()).unwrap_or(0);
+                        acc += (enc.estimate_compression_ratio(&probe) * 8.0) as usize;
+                    }
+                    std::hint::black_box(acc);
+                    true
+                }
+                Err(_) => false,
+            },
+            len_arg: false,
+            small: false,
+        },
         P { name: "ContextualHuffmanEncoder::deserialize + ContextualHuffmanDecoder::decode[order0]", seeds: ctx_deser_decode_seeds::<0>, parse: ctx_deser_decode_parse, len_arg: true, small: false },
         P { name: "ContextualHuffmanEncoder::deserialize + ContextualHuffmanDecoder::decode[order1]", seeds: ctx_deser_decode_seeds::<1>, parse: ctx_deser_decode_parse, len_arg: true, small: false },
         P { name: "ContextualHuffmanEncoder::deserialize + ContextualHuffmanDecoder::decode[order2]", seeds: ctx_deser_decode_seeds::<2>, parse: ctx_deser_decode_parse, len_arg: true, small: false },
@@ -626,7 +696,26 @@ pub fn all(tier: Tier) -> Vec<P> {
             len_arg: false,
             small: th,
         },
-        P { name: "entropy::dictionary::Dictionary::deserialize", seeds: dict_seeds, parse: |b, _| Dictionary::deserialize(b).is_ok(), len_arg: false, small: true },
+        P {
+            name: "entropy::dictionary::Dictionary::deserialize",
+            seeds: dict_seeds,
+            parse: |b, _| match Dictionary::deserialize(b) {
+                Ok(d) => {
+                    // (coverage audit) look entries up, re-serialise, and compress with the loaded dictionary
+                    let mut acc = d.len() + d.is_empty() as usize + d.serialize().len();
+                    for probe in [&b""[..], b"a", b"ab", b"abab", b"the ", &[0u8; 4]] {
+                        acc += d.get(probe).map(|e| e.offset as usize ^ e.length as usize).unwrap_or(0);
+                    }
+                    let c = DictionaryCompressor::new(d);
+                    acc += c.compress(b"abababababababab the quick brown fox").map(|v| v.len()).unwrap_or(0);
+                    std::hint::black_box((acc, c.dictionary().len()));
+                    true
+                }
+                Err(_) => false,
+            },
+            len_arg: false,
+            small: true,
+        },
         P {
             name: "DictionaryCompressor::decompress",
             seeds: dict_compress_seeds,
